@@ -29,7 +29,13 @@ PATHS = ['/any/dir/f.html', '/any/dir/sub/f.html', '/any/f.html', '/any/other/f.
          '/any/dir/ACCREJ.jpg', '/inc/sub/deeper/f.html', '/inc/', '/exc/',
          # siblings whose name merely extends (or is extended by) a configured directory's name
          '/any/dir-old/f.html', '/any/dir2/', '/any/di/f.html', '/any/dir', '/inc2/f.html', '/excel/f.html',
-         '/in/f.html', '/inc', '/any/dir/inc/f.html', '/any/dir/exc/f.html']
+         '/in/f.html', '/inc', '/any/dir/inc/f.html', '/any/dir/exc/f.html',
+         # directories whose names are not plain ASCII words (the URL has them percent-encoded), and list entries
+         # written without the leading slash / with lower-case escapes
+         '/private files/a.html', '/caf\u00e9/b.html', '/cgi-bin/d.html', '/esc dir/e.html', '/open dir/g.html',
+         '/pub/h.html']
+INC_DIRS = ['/inc', '/open dir', 'pub']
+EXC_DIRS = ['/exc', '/private files', '/caf\u00e9', 'cgi-bin', '/esc%20dir']
 
 CFG0 = dict(recursive=True, pagereq=False, level=0, prlevel=0, noparent=False, spanhosts=False, spanpr=False,
             spanlp=False, domacc=False, domrej=False, hostacc=False, hostrej=False, httpsonly=False, followftp=False,
@@ -74,9 +80,9 @@ def argv_of(c):
     if c['rxrej']:
         a += ['--reject-regex', 'REJ']
     if c['diracc']:
-        a += ['--include-directories', '/inc']
+        a += ['--include-directories', ','.join(INC_DIRS)]
     if c['dirrej']:
-        a += ['--exclude-directories', '/exc']
+        a += ['--exclude-directories', ','.join(EXC_DIRS)]
     if c['sufacc']:
         a += ['--accept', 'html']
     if c['sufrej']:
@@ -106,7 +112,8 @@ def abstract_rec(r):
             prel = 'sibling'
     return {'scheme': r['scheme'], 'pscheme': r['pscheme'], 'hostc': MODEL_HOSTC.get(r['hostc'], r['hostc']), 'phostc': r['phostc'],
             'sameport': r['sameport'], 'level': r['level'], 'inline': r['inline'], 'try': r['tr'], 'prel': prel,
-            'rxa': 'ACC' in p, 'rxr': 'REJ' in p, 'da': (p + '/').startswith('/inc/'), 'dr': (p + '/').startswith('/exc/'),   # '/inc' itself names the directory (is_subdir's documented reading)
+            'rxa': 'ACC' in p, 'rxr': 'REJ' in p, 'da': any((p + '/').startswith(d) for d in ('/inc/', '/open dir/', '/pub/')),
+            'dr': any((p + '/').startswith(d) for d in ('/exc/', '/private files/', '/caf\u00e9/', '/cgi-bin/', '/esc dir/')),   # '/inc' itself names the directory (is_subdir's documented reading)
            
             'sfa': name.endswith('html'), 'sfr': name.endswith('jpg'), 'noname': name == '',
             'redirect': r['redirect']}
